@@ -164,6 +164,13 @@ is written: `mustAddMemPart` turns one `dataPoints` batch into one memPart).  `B
 in every snapshot, no batch ordinal occurs twice — so a view never contains both a merged part and one of its inputs —
 and the published view changes exactly as the op says: -/
 
+theorem batchInv_run {st : State} (ops : List Op) (h : Inv st) (hb : BatchInv st) : BatchInv (run st ops) := by
+  induction ops generalizing st with
+  | nil => exact hb
+  | cons o os ih => exact ih (inv_step o h) (batchInv_step o h hb)
+
+theorem batchInv_reachable (ops : List Op) : BatchInv (run init ops) := batchInv_run ops inv_init batchInv_init
+
 /-- no snapshot of a reachable state shows a batch twice (never "merged part AND its inputs") -/
 theorem view_nodup (ops : List Op) (s : Nat) (hs : s < (run init ops).nS) : (view (run init ops) s).Nodup :=
   (batchInv_reachable ops).viewNodup s hs
@@ -267,5 +274,106 @@ theorem txn_commit_after_rollback_noop (w : World) (x : Transaction) :
   by_cases hf : x.finalized = true
   · simp [hf]
   · simp [hf]
+
+open Txn in
+/-- `NewTransition` keeps the accounting `count = managers pointing here + pins owed by live transitions + frame`
+(for an arbitrary frame `R`: other transactions, readers) -/
+theorem txn_acct_newTransition {nM : Nat} {w : World} {ts : List Transition} {R : Nat → Int} (m : Nat)
+    (mkNil : Bool) (h : Acct nM w ts R) (hts : ∀ t ∈ ts, ∀ s, pins t s ≠ 0 → s < w.nSnap) :
+    Acct nM (newTransition w m mkNil).1 (ts ++ [(newTransition w m mkNil).2]) R :=
+  (acct_newTransition m mkNil h hts).1
+
+open Txn in
+/-- **Commit applies all** (one transition per manager): every manager ends at its prepared `next`, nobody else
+moves … -/
+theorem txn_commit_applies_all (ts : List Transition) (w : World)
+    (hf : ∀ t, t ∈ ts → t.committed = false) (hnd : (ts.map fun t => t.mgr).Nodup) :
+    (∀ t, t ∈ ts → (commit w { ts := ts, finalized := false }).1.cur t.mgr = t.next) ∧
+    (∀ m, (∀ t, t ∈ ts → t.mgr ≠ m) → (commit w { ts := ts, finalized := false }).1.cur m = w.cur m) := by
+  have := commitAll_cur ts w hf hnd
+  simpa [commit] using this
+
+open Txn in
+/-- … and after the callers released their transitions every reference is accounted for: each count is exactly
+*managers pointing at the snapshot + frame*.  For ANY list of freshly prepared transitions and ANY frame. -/
+theorem txn_balanced_after_release (nM : Nat) (ts : List Transition) (w : World) (R : Nat → Int)
+    (hf : ∀ t, t ∈ ts → Fresh nM t) (h : Shape nM w ts R) :
+    let c := commit w { ts := ts, finalized := false }
+    let r := releaseAll c.1 c.2.ts
+    ∀ s, r.1.ref s = mcountN r.1.cur s nM + R s := commit_release_balanced nM ts w R hf h
+
+open Txn in
+/-- **Rollback applies none and restores every reference**: no manager moves; every count is back at
+*managers pointing at the snapshot + frame* — what it was before `NewTransition` pinned anything — and the prepared
+`next` snapshots are left unreferenced. -/
+theorem txn_rollback_applies_none (nM : Nat) (ts : List Transition) (w : World) (R : Nat → Int)
+    (hf : ∀ t, t ∈ ts → Fresh nM t) (h : Shape nM w ts R) :
+    let c := rollback w { ts := ts, finalized := false }
+    let r := releaseAll c.1 c.2.ts
+    r.1.cur = w.cur ∧ ∀ s, r.1.ref s = mcountN w.cur s nM + R s := rollback_release_balanced nM ts w R hf h
+
+/-- the pinned unit tests as instances (two managers at snapshots 0,1 with ref 1; one transaction with a transition
+on each): commit+release leaves refs 0,0,1,1 and managers at 2,3; rollback+release leaves 1,1,0,0 and managers at 0,1;
+a second commit / rollback / commit-after-rollback changes nothing. -/
+example :
+    let w0 : Txn.World := { ref := fun j => if j < 2 then 1 else 0, nSnap := 2,
+                            cur := fun m => if m = 0 then some 0 else if m = 1 then some 1 else none }
+    let a := Txn.addTransition w0 { ts := [], finalized := false } 0 false
+    let b := Txn.addTransition a.1 a.2 1 false
+    let c := Txn.commit b.1 b.2
+    let c2 := Txn.rollback c.1 c.2
+    let r := Txn.releaseAll c2.1 c2.2.ts
+    let d := Txn.rollback b.1 b.2
+    let d2 := Txn.commit d.1 d.2
+    let q := Txn.releaseAll d2.1 d2.2.ts
+    ((List.range 4).map r.1.ref = [0, 0, 1, 1] ∧ r.1.cur 0 = some 2 ∧ r.1.cur 1 = some 3) ∧
+    ((List.range 4).map q.1.ref = [1, 1, 0, 0] ∧ q.1.cur 0 = some 0 ∧ q.1.cur 1 = some 1) ∧
+    (List.range 4).map b.1.ref = [2, 2, 1, 1] := by
+  decide
+
+/-! ## 5. trace: two-phase publication (`commitSnapshotTransaction`) -/
+
+open Pub in
+/-- With the publication fence (`snapshotPublicationMu`: writer Lock around `txn.Commit()`, reader RLock around
+"pin sidx view, then pin core view") a reader only ever pins views that exist between whole transactions; if every
+prepared pair of snapshots is consistent (index entry ⇒ spans present), so is everything a reader can pin:
+`ordered-index entry visible → spans visible`. -/
+theorem pub_fenced_reader_consistent (v : View) (ps : List Prepared) (hv : Consistent v)
+    (hps : ∀ p, p ∈ ps → Consistent p.next) : ∀ u, u ∈ fencedViews v ps → Consistent u := by
+  induction ps generalizing v with
+  | nil => intro u hu; simp [fencedViews] at hu; subst hu; exact hv
+  | cons p ps ih =>
+    intro u hu
+    simp only [fencedViews, List.mem_cons] at hu
+    rcases hu with rfl | hu
+    · exact hv
+    · exact ih (commitFenced v p) (hps p (by simp)) (fun q hq => hps q (List.mem_cons_of_mem _ hq)) u hu
+
+open Pub in
+/-- Without the fence a reader pins the index at one micro-state and the spans at a later one.  That is still safe
+as long as every micro-state is consistent and the set of visible spans only grows (introduce / flush / merge, where
+`Commit` replaces the core snapshot first). -/
+theorem pub_unfenced_core_monotone (ms : List View) (hcons : ∀ u, u ∈ ms → Consistent u)
+    (hmono : ms.Pairwise fun a b => ∀ t, t ∈ a.core → t ∈ b.core)
+    (i j : Nat) (hij : i ≤ j) (hj : j < ms.length) (t : Nat) (ht : t ∈ (ms[i]'(by omega)).sidx) :
+    t ∈ (ms[j]).core := by
+  have hi : i < ms.length := by omega
+  have hc := hcons ms[i] (List.getElem_mem hi) t ht
+  by_cases he : i = j
+  · subst he; exact hc
+  · exact (List.pairwise_iff_getElem.mp hmono) i j hi hj (by omega) t hc
+
+open Pub in
+/-- … but NOT for transactions that take spans away (`introduceSync`, which replaces the sidx snapshots first and the
+core snapshot second): an unfenced reader that pinned the index before and the spans after sees an index entry without
+spans.  Every micro-state is consistent here, so only the fence (previous theorem) rules this reader out. -/
+theorem pub_unfenced_counterexample :
+    let v : View := { core := [1], sidx := [1] }
+    let p : Prepared := { next := { core := [], sidx := [] }, sidxFirst := true }
+    let ms := microStates v [p]
+    ms.length = 3 ∧ (∀ u, u ∈ ms → ∀ t, t ∈ u.sidx → t ∈ u.core) ∧
+    (1 ∈ ((ms[0]?).map (·.sidx)).getD [] ∧ 1 ∉ ((ms[2]?).map (·.core)).getD [0]) ∧
+    (∀ u, u ∈ fencedViews v [p] → ∀ t, t ∈ u.sidx → t ∈ u.core) := by
+  decide
 
 end Banyan.C05
